@@ -85,6 +85,25 @@ def run_fast(pgn, src, dest, prio, payload, seq, variant):
         out["actisense"] = canon(NMEA2000Decoder().decode_actisense_string(wire.actisense(pgn, src, dest, prio, payload, ts_a, up)))
     except Exception:
         out["actisense"] = None
+    # ONE decoder that receives the message through a whole-message format first and frame by frame afterwards (another sequence
+    # counter), and one that sees it the other way round: the order of formats on a decoder must not matter
+    frames2 = wire.segment(payload, (seq + 1) % 8)
+    try:
+        d = NMEA2000Decoder()
+        d.decode_actisense_string(wire.actisense(pgn, src, dest, prio, payload, ts_a, up))
+        r = None
+        for fr in frames2:
+            r = d.decode_tcp(wire.ebyte(ident, fr, pad))
+        out["ebyte-after-actisense"] = canon(r)
+    except Exception:
+        out["ebyte-after-actisense"] = None
+    try:
+        d = NMEA2000Decoder()
+        for fr in frames2:
+            d.decode_usb(wire.usb(ident, fr, pad))
+        out["plain-combined-after-usb"] = canon(d.decode_basic_string(wire.plain(pgn, src, dest, prio, payload, ts_p, up), already_combined=True))
+    except Exception:
+        out["plain-combined-after-usb"] = None
     try:
         out["plain-combined"] = canon(NMEA2000Decoder().decode_basic_string(wire.plain(pgn, src, dest, prio, payload, ts_p, up), already_combined=True))
     except Exception:
